@@ -35,6 +35,7 @@ func (c09) Classes() []sim.Class {
 		cs = append(cs,
 			sim.Class{Name: "history", Engine: e, Quick: 400, Thorough: 20000, DeathIsViolation: true, RunTimeoutSec: 120, Batch: 25},
 			sim.Class{Name: "shared-cache", Engine: e, Quick: 150, Thorough: 8000, DeathIsViolation: true, RunTimeoutSec: 120, Batch: 25},
+			sim.Class{Name: "generations", Engine: e, Quick: 60, Thorough: 3000, DeathIsViolation: true, RunTimeoutSec: 120, Batch: 20},
 		)
 	}
 	for _, e := range []string{"interpreter", "compiler"} {
@@ -430,6 +431,9 @@ func (c09) Run(t *tape.Tape, cfg sim.Config) (res sim.Result) {
 	r := &runner{t: t, res: &res, ctx: context.Background(), engine: cfg.Engine, curA: -1, curM: -1, curU: -1, uHolds: -1}
 	if cfg.Class == "dangling-reference" {
 		return r.dangling()
+	}
+	if cfg.Class == "generations" {
+		return runGenerations(t, cfg)
 	}
 	shared := cfg.Class == "shared-cache"
 	if t.Chance(1, 3) {
